@@ -211,6 +211,44 @@ Section Scalars.
   Qed.
 End Scalars.
 
+(* ------------------------------------------------- fixed-width coordinates *)
+Lemma firstn_app_exact {A} (a b : list A) n : length a = n -> firstn n (a ++ b) = a.
+Proof. intros <-. rewrite firstn_app, Nat.sub_diag, firstn_all. cbn [firstn]. apply app_nil_r. Qed.
+
+Lemma skipn_app_exact {A} (a b : list A) n : length a = n -> skipn n (a ++ b) = b.
+Proof. intros <-. rewrite skipn_app, Nat.sub_diag, skipn_all. reflexivity. Qed.
+
+Lemma coord_enc_length bo w prefix cs :
+  length (coord_enc bo w prefix cs) = (length prefix + w * length cs)%nat.
+Proof.
+  unfold coord_enc. rewrite app_length. f_equal.
+  induction cs as [|c t IH]; cbn [flat_map length]; [lia|].
+  rewrite app_length, encode_length, IH. lia.
+Qed.
+
+(* every coordinate, whatever its number of leading zero bytes, is read back
+   from its own w-byte field *)
+Theorem coord_dec_enc bo w prefix cs :
+  Forall (fun c => 0 <= c < 256 ^ Z.of_nat w) cs ->
+  coord_dec bo w (length cs) (skipn (length prefix) (coord_enc bo w prefix cs)) = cs.
+Proof.
+  intros H. unfold coord_enc. rewrite skipn_app, Nat.sub_diag, skipn_all. cbn [skipn app].
+  induction cs as [|c t IH]; [reflexivity|].
+  inversion H as [|? ? Hc Ht]; subst. cbn [flat_map length coord_dec].
+  pose proof (encode_length bo w c) as L.
+  rewrite (firstn_app_exact _ _ _ L), (skipn_app_exact _ _ _ L).
+  rewrite decode_encode by exact Hc. f_equal. apply IH. exact Ht.
+Qed.
+
+(* hence the layout is injective on in-range coordinate tuples of one arity *)
+Theorem coord_enc_inj bo w prefix cs cs' :
+  Forall (fun c => 0 <= c < 256 ^ Z.of_nat w) cs -> Forall (fun c => 0 <= c < 256 ^ Z.of_nat w) cs' ->
+  length cs = length cs' -> coord_enc bo w prefix cs = coord_enc bo w prefix cs' -> cs = cs'.
+Proof.
+  intros H H' L E. rewrite <- (coord_dec_enc bo w prefix cs H), <- (coord_dec_enc bo w prefix cs' H'), L, E.
+  reflexivity.
+Qed.
+
 (* ---------------------------------------------------------------- points *)
 (* The contract C03 demands of a point encoding.  [enc]/[dec] stand for
    MarshalBinary/UnmarshalBinary of a group whose elements are modelled by
